@@ -17,6 +17,7 @@ package helper
 func SliceToChan[T any](slice []T) <-chan T {
 	c := make(chan T)
 
+	VerifStage("SliceToChan", len(slice), nil, []any{c})
 	go func() {
 		defer close(c)
 
